@@ -3,6 +3,7 @@ package props
 import (
 	"fmt"
 	"go/constant"
+	"go/token"
 	"go/types"
 	"strings"
 
@@ -383,6 +384,46 @@ func (c *Ctx) closedEndsWait(m *locks.Monitor) {
 				c.R.Bad(ruleL2, key, c.P.InstrPos(wl.Wait.Instr), "with the closed flag set the loop can still reach Wait (the end-of-stream return is conditional on something else): after Close nobody broadcasts again, so the caller sleeps forever - e.g. the processor with a partial packet in the ring when the keep-alive expires", c.witness(g, p)...)
 			} else {
 				c.R.Ok(ruleL2, key, c.P.InstrPos(wl.Wait.Instr), "when the closed flag is set the loop returns instead of waiting")
+			}
+			// ... and what it returns then is end-of-stream, the one error every caller stops on (the packet readers
+			// retry on "not enough data yet", which on a closed ring never changes)
+			notEOF := func(n paths.Node) bool {
+				ret, ok := n.Instr.(*ssa.Return)
+				if !ok || n.F != g.Root || len(ret.Results) == 0 {
+					return false
+				}
+				last := ret.Results[len(ret.Results)-1]
+				if !types.Identical(last.Type(), types.Universe.Lookup("error").Type()) {
+					return false
+				}
+				op := ir.SeeThrough(ir.ReturnOperand(ret, len(ret.Results)-1))
+				if ld, ok := op.(*ssa.UnOp); ok && ld.Op == token.MUL {
+					if gl, ok := ld.X.(*ssa.Global); ok && gl.Name() == "EOF" && gl.Pkg != nil && gl.Pkg.Pkg.Path() == "io" {
+						return false
+					}
+				}
+				return true
+			}
+			keyE := fmt.Sprintf("%s:wait(%s):closed-flag-exit-reports-end-of-stream", fname(fn), cf)
+			// from the branch that saw the closed flag: the successor of the test taken when it is set
+			var seen []paths.Node
+			for b := range wl.Loop.Blocks {
+				if iff, ok := b.Instrs[len(b.Instrs)-1].(*ssa.If); ok {
+					if a, truth := edgeAtom(iff, 0); a == atom {
+						idx := 0
+						if !truth {
+							idx = 1
+						}
+						seen = append(seen, paths.Node{F: g.Root, Instr: b.Succs[idx].Instrs[0], Phase: -1})
+					}
+				}
+			}
+			if len(seen) > 0 {
+				if p := reach(g, seen, nil, notEOF, nil); p != nil {
+					c.R.Bad(ruleL2, keyE, c.P.InstrPos(wl.Wait.Instr), "a wait that ends because the ring was closed can return an error other than io.EOF: the packet readers treat 'not enough data' as a reason to try again, which on a closed ring lasts for ever - the processor spins, teardown is never reached, the silent client is never dropped", c.witness(g, p)...)
+				} else {
+					c.R.Ok(ruleL2, keyE, c.P.InstrPos(wl.Wait.Instr), "every return behind the closed-flag test reports io.EOF")
+				}
 			}
 		}
 	}
